@@ -305,6 +305,13 @@ RULES = [
     ('break-outside-loop', 'repeat 2 begin set "Candle" begin break end end'),
     ('assign-to-macro', 'define m 5 assign m 6'),
     ('redefine-routine', 'define f begin print 1 end define f begin print 2 end'),
+    # … a built-in routine is a routine: its name cannot be defined again either
+    ('redefine-routine', 'define round with x begin return {x * 100} end'),
+    ('redefine-routine', 'print [round 2.6] define round with x begin return {x * 100} end print [round 2.6]'),
+    ('redefine-routine', 'define random with low high begin return low end'),
+    ('redefine-routine', 'define f begin print 1 end print 2 define f with a begin print a end'),
+    ('malformed-time', 'time at 24:00'), ('malformed-time', 'time at 23:59 or 24:00'),
+    ('malformed-time', 'define midnight 24:00'), ('malformed-time', 'time at 2*:60'),
     ('undefined-name', 'hue xyz'),
     ('undefined-name', 'set lamp'),
     ('undefined-name', 'assign a {b + 1}'),
